@@ -55,6 +55,63 @@ Proof.
   destruct (Z.ltb_spec (Z.of_N (N.of_nat (length file)) + - (Z.of_N (le_dec (firstn 4 (skipn (length file - 8) file))) + 8)) 0) as [_|H]; [reflexivity | lia].
 Qed.
 
+(** ** Every file the constructor accepts has a decodable footer where the
+    trailer's length field says it is (the magic itself is not checked) *)
+Lemma open_footer_ok_trailer fs file sched fm s1 :
+  open_footer fs (mk_src file sched None) = Ok (fm, s1) ->
+  (8 <= length file)%nat /\
+  (Z.of_N (le_dec (firstn 4 (skipn (length file - 8) file))) + 8 <= Z.of_nat (length file))%Z /\
+  exists rest,
+    dec_file_meta (skipn (length file - 8 - N.to_nat (le_dec (firstn 4 (skipn (length file - 8) file)))) file) = Some (fm, rest).
+Proof.
+  unfold open_footer.
+  unfold bind at 1. unfold m_seek_end at 1. unfold bind at 1. rewrite op_tick_fresh. cbn [s_file].
+  unfold nlen.
+  destruct (Z.ltb_spec (Z.of_N (N.of_nat (length file)) + -8) 0) as [_|Hlen0]; [discriminate|].
+  assert (Hlen : (8 <= length file)%nat) by lia.
+  unfold set_pos. cbn [s_file s_pos s_sched s_fail s_ops].
+  unfold bind at 1. unfold m_read_full. unfold bind at 1. unfold op_tick at 1. cbn [s_fail s_file s_pos s_sched s_ops].
+  set (s2 := {| s_file := file; s_pos := Z.to_N (Z.of_N (N.of_nat (length file)) + -8); s_sched := sched; s_fail := None; s_ops := 2 |}).
+  assert (Hs2 : s_pos s2 = N.of_nat (length file - 8)) by (unfold s2; cbn [s_pos]; lia).
+  assert (Hav : avail s2 = skipn (length file - 8) file).
+  { unfold avail. rewrite Hs2. unfold s2. cbn [s_file]. f_equal. lia. }
+  assert (Hal : (4 <= length (avail s2))%nat) by (rewrite Hav, skipn_length; lia).
+  destruct (read_full_loop_ok 4 4 [] s2 (le_n 4) Hal) as (s3 & Hr & Hf3 & _ & Hfl3 & _).
+  rewrite Hr. cbn [app].
+  assert (Hlenb : firstn 4 (avail s2) = firstn 4 (skipn (length file - 8) file)) by (rewrite Hav; reflexivity).
+  unfold s2 in Hf3, Hfl3. cbn [s_file s_fail] in Hf3, Hfl3.
+  unfold bind at 1. unfold m_seek_end. unfold bind at 1. unfold op_tick at 1. rewrite Hfl3.
+  cbn [s_file]. rewrite Hf3. unfold nlen. rewrite Hlenb.
+  set (L := le_dec (firstn 4 (skipn (length file - 8) file))).
+  destruct (Z.ltb_spec (Z.of_N (N.of_nat (length file)) + - (Z.of_N L + 8)) 0) as [_|HL]; [discriminate|].
+  unfold set_pos. cbn [s_file s_pos s_sched s_fail s_ops].
+  unfold bind at 1. unfold m_read_struct. unfold bind at 1. unfold op_tick at 1.
+  cbn [s_fail s_file s_pos s_sched s_ops].
+  replace (N.to_nat (Z.to_N (Z.of_N (N.of_nat (length file)) + - (Z.of_N L + 8))))
+    with (length file - 8 - N.to_nat L)%nat by lia.
+  destruct (dec_file_meta (skipn (length file - 8 - N.to_nat L) file)) as [[fm' rest]|] eqn:Hdec; [|discriminate].
+  intros Hrun. split; [exact Hlen|]. split; [lia|]. exists rest.
+  destruct (forallb _ (fm_row_groups fm')) eqn:Hc1 in Hrun; [|discriminate].
+  destruct (forallb _ (fm_row_groups fm')) eqn:Hc2 in Hrun; [|discriminate].
+  unfold bind at 1 in Hrun.
+  destruct (m_seek_start 4 _) as [[u s4]| |] in Hrun; [|discriminate|discriminate].
+  unfold ret in Hrun. injection Hrun as Hfm _. rewrite Hfm. reflexivity.
+Qed.
+
+Theorem open_ok_trailer fs file sched :
+  o_open_ok (read_all_src decompress fs (mk_src file sched None)) = true ->
+  (8 <= length file)%nat /\
+  (Z.of_N (le_dec (firstn 4 (skipn (length file - 8) file))) + 8 <= Z.of_nat (length file))%Z /\
+  exists fm rest,
+    dec_file_meta (skipn (length file - 8 - N.to_nat (le_dec (firstn 4 (skipn (length file - 8) file)))) file) = Some (fm, rest).
+Proof.
+  intros Hok. unfold read_all_src in Hok.
+  destruct (open_footer fs (mk_src file sched None)) as [[fm s1]| |] eqn:Hopen;
+    [|discriminate Hok|discriminate Hok].
+  destruct (open_footer_ok_trailer fs file sched fm s1 Hopen) as (Hlen & HL & rest & Hdec).
+  split; [exact Hlen|]. split; [exact HL|]. exists fm, rest. exact Hdec.
+Qed.
+
 End Trunc.
 
 (** ** The unconditional statement is false for any footer-last format *)
@@ -98,4 +155,5 @@ Qed.
 
 Print Assumptions open_short.
 Print Assumptions open_bad_length.
+Print Assumptions open_ok_trailer.
 Print Assumptions truncation_refuted.
